@@ -207,11 +207,11 @@ def _call(fn_path: str, task: dict):
 
 
 def run_tasks(fn_path: str, tasks: list[dict], *, mem_gib: float = 8.0, wall_s: int = 3600,
-              workers: int | None = None, on_result=None) -> list:
+              workers: int | None = None, on_result=None, force_pool: bool = False) -> list:
     """Run ``fn_path`` ("module:function") over tasks; return results in task order."""
     workers = workers or n_workers()
     results: list = [None] * len(tasks)
-    if workers == 1 or len(tasks) <= 1:
+    if (workers == 1 or len(tasks) <= 1) and not force_pool:
         for i, t in enumerate(tasks):
             st, r = _call(fn_path, t)
             if st == "err":
@@ -270,6 +270,35 @@ class wall_backstop:
         signal.alarm(0)
         signal.signal(signal.SIGALRM, self._old)
         return False
+
+
+# --------------------------------------------------------------------------
+# where did an exception come from (innermost frame inside kio's sources)
+
+
+def exc_site(e: BaseException) -> dict | None:
+    import linecache
+
+    root = os.path.abspath(SRC) + os.sep
+    tb = e.__traceback__
+    best = None
+    while tb is not None:
+        fn = tb.tb_frame.f_code.co_filename
+        if fn.startswith(root):
+            best = tb
+        tb = tb.tb_next
+    if best is None:
+        return None
+    fr = best.tb_frame
+    site = {
+        "file": os.path.relpath(fr.f_code.co_filename, root),
+        "func": fr.f_code.co_name,
+        "code": (linecache.getline(fr.f_code.co_filename, best.tb_lineno) or "").strip(),
+    }
+    nb = fr.f_locals.get("num_bytes", fr.f_locals.get("length"))
+    if isinstance(nb, int):
+        site["requested"] = int(nb)
+    return site
 
 
 # --------------------------------------------------------------------------
